@@ -187,3 +187,82 @@ func RefWeekStreamDecode(b []byte) (weeks []RawWeek, rest int) {
 	}
 	return weeks, 0
 }
+
+// RawReply is the structured form of a TCP sync reply (without the two byte
+// length prefix):
+//   device key [32] | window offset u32 | bitfield [504] |
+//   new GCA [32] | new short id u32 | { server entry }* | migration sig [64] |
+//   unix time u64 | server signature [64]
+// Without a migration order the new GCA, new id and migration signature are
+// zero.
+type RawReply struct {
+	DeviceKey [32]byte
+	Offset    uint32
+	Bitfield  [504]byte
+	NewGCA    [32]byte
+	NewID     uint32
+	Servers   []RawServer
+	MigSig    [64]byte
+	Time      uint64
+	Sig       [64]byte
+}
+
+// RefReplyBody is everything the server signs.
+func RefReplyBody(r RawReply) []byte {
+	out := cat(r.DeviceKey[:], le32(r.Offset), r.Bitfield[:], r.NewGCA[:], le32(r.NewID))
+	for _, s := range r.Servers {
+		out = append(out, RefServerBytes(s)...)
+	}
+	out = append(out, r.MigSig[:]...)
+	return append(out, le64(r.Time)...)
+}
+
+func RefReplyBytes(r RawReply) []byte { return cat(RefReplyBody(r), r.Sig[:]) }
+
+// RefReplyMigrationSigningBytes: what the current GCA signs for a migration
+// order as it appears inside a reply.
+func RefReplyMigrationSigningBytes(r RawReply) []byte {
+	m := RawMigration{Equipment: r.DeviceKey, NewGCA: r.NewGCA, NewShortID: r.NewID, NewServers: r.Servers}
+	return RefMigrationSigningBytes(m)
+}
+
+// RefReplyDecode parses reply bytes (no length prefix). listok is false when
+// the server entries do not parse exactly.
+func RefReplyDecode(b []byte) (r RawReply, listok bool, ok bool) {
+	if len(b) < 576+64+72 {
+		return r, false, false
+	}
+	copy(r.DeviceKey[:], b[0:32])
+	r.Offset = binary.LittleEndian.Uint32(b[32:])
+	copy(r.Bitfield[:], b[36:540])
+	copy(r.NewGCA[:], b[540:572])
+	r.NewID = binary.LittleEndian.Uint32(b[572:])
+	end := len(b) - 136
+	copy(r.MigSig[:], b[end:end+64])
+	r.Time = binary.LittleEndian.Uint64(b[end+64:])
+	copy(r.Sig[:], b[end+72:])
+	i := 576
+	listok = true
+	for i < end {
+		if i+34 > end {
+			return r, false, true
+		}
+		var s RawServer
+		copy(s.PublicKey[:], b[i:i+32])
+		s.Banned = b[i+32] != 0
+		ll := int(b[i+33])
+		i += 34
+		if i+ll+70 > end {
+			return r, false, true
+		}
+		s.Location = string(b[i : i+ll])
+		i += ll
+		s.HttpPort = binary.LittleEndian.Uint16(b[i:])
+		s.TcpPort = binary.LittleEndian.Uint16(b[i+2:])
+		s.UdpPort = binary.LittleEndian.Uint16(b[i+4:])
+		copy(s.Sig[:], b[i+6:i+70])
+		i += 70
+		r.Servers = append(r.Servers, s)
+	}
+	return r, listok, true
+}
